@@ -91,6 +91,7 @@ def scenario(job):
     m = macros[idx]
     src = mg.rep[m.src]
     sess = binding.make_session(cfgi, m)
+    sess.plain_ints = True     # the write order of one call is studied here, not its argument forms
     store = tempfile.mkdtemp(prefix='darrcrash_')
     res = {'gi': gi, 'idx': idx, 'label': m.label(), 'cfg': sess.describe(), 'viol': [], 'nonconf': [],
            'snaps': 0, 'variants': 0, 'opens': 0, 'opened_ok': 0}
@@ -229,6 +230,7 @@ def scenario_ragged(job):
     m = macros[idx]
     src = mg.rep[m.src]
     sess = binding.make_session(cfgi, m)
+    sess.plain_ints = True     # the write order of one call is studied here, not its argument forms
     store = tempfile.mkdtemp(prefix='darrcrashr_')
     res = {'gi': gi, 'idx': idx, 'label': m.label(), 'cfg': sess.describe(), 'viol': [], 'nonconf': [],
            'snaps': 0, 'variants': 0, 'opens': 0, 'opened_ok': 0, 'ragged': True}
